@@ -21,7 +21,7 @@ Err   == [err |-> 1]
 IsOk(r)  == "ok" \in DOMAIN r
 IsErr(r) == "err" \in DOMAIN r
 
-NoPc  == [open |-> FALSE, guid |-> "", proto |-> <<>>, pts |-> <<>>, meta |-> <<>>]
+NoPc  == [open |-> FALSE, guid |-> "", proto |-> <<>>, pts |-> <<>>, reals |-> <<>>, meta |-> <<>>]
 NoImg == [open |-> FALSE, guid |-> "", reps |-> <<>>, meta |-> <<>>]
 EmptyScene == [guid |-> "", root |-> <<>>, exts |-> <<>>, blobs |-> <<>>, pcs |-> <<>>, images |-> <<>>,
                pc |-> NoPc, im |-> NoImg, fin |-> FALSE, dead |-> FALSE]
@@ -104,15 +104,15 @@ W_Blob(data, r) ==
 
 PC_New(guid, proto, r) ==
     /\ ~sc.pc.open
-    /\ sc' = IF IsOk(r) THEN [sc EXCEPT !.pc = [open |-> TRUE, guid |-> guid, proto |-> proto, pts |-> <<>>, meta |-> <<>>]]
+    /\ sc' = IF IsOk(r) THEN [sc EXCEPT !.pc = [open |-> TRUE, guid |-> guid, proto |-> proto, pts |-> <<>>, reals |-> <<>>, meta |-> <<>>]]
              ELSE sc
     /\ res' = r /\ UNCHANGED file
 
 PC_Set(f, v) == sc.pc.open /\ sc' = [sc EXCEPT !.pc.meta = Append(@, <<f, v>>)] /\ res' = Ok(0) /\ UNCHANGED file
 
-PC_Points(pts) ==
+PC_Points(pts, reals) ==
     /\ sc.pc.open
-    /\ sc' = [sc EXCEPT !.pc.pts = @ \o pts]
+    /\ sc' = [sc EXCEPT !.pc.pts = @ \o pts, !.pc.reals = @ \o reals]
     /\ res' = Ok(0) /\ UNCHANGED file
 
 PC_PointRejected(r) == sc.pc.open /\ sc' = sc /\ res' = r /\ UNCHANGED file
